@@ -1325,6 +1325,17 @@ def main(argv):
         "for planar holes",
         "subdivide_to_size may refuse with ValueError('max_iter exceeded') only when max_iter halvings cannot "
         "reach the bound",
+        "fill_holes with any number of faces removed: what is left must itself be a manifold with boundary (no "
+        "pinched vertex, no removed face on the border of an open sheet); only boundary cycles of three or four "
+        "edges have to be closed, longer holes may stay; face colours / texture / attributes carried by the mesh "
+        "are not compared, only the geometry claims",
+        "fill_holes() then fix_normals() on removed + re-wound faces: positive volume is demanded only when the "
+        "removed patches are planar (a non-planar quad may be closed along either diagonal)",
+        "containers and dtypes (face_index as mask / list / tuple / narrow or unsigned integers / negative indices, "
+        "unsigned or narrow faces, float32 or integer lattice vertices, lists for subdivide_to_size) are "
+        "presentations of the same face subset / mesh: the same post-conditions are demanded",
+        "findings of the coverage audit are decided from the input alone in Repair.tla (tags QSA, SFT, SU64, SVA1, "
+        "LUV) so that their observations are grouped; they are VIOLATIONs as long as they are not listed as known",
     ])
 
 
